@@ -10,4 +10,5 @@ CONSTANTS
 INVARIANT MethodExists
 INVARIANT TicksOK
 INVARIANT CountBound
+INVARIANT NiceOK
 CHECK_DEADLOCK FALSE
